@@ -82,6 +82,10 @@ SERVER_STREAMS = [
     "POST /p HTTP/1.1\r\nHost: a\r\nTransfer-Encoding: chunked\r\n\r\n5\r\nhello\r\n0\r\n\r\nGET /n HTTP/1.1\r\nHost: a\r\n\r\n",
     "POST /p HTTP/1.1\r\nHost: a\r\nTransfer-Encoding: chunked\r\n\r\n00000000000000000003\r\nabc\r\n0\r\n\r\n",
     "POST /p HTTP/1.1\r\nHost: a\r\nTransfer-Encoding: chunked\r\n\r\n3\r\nabc\r\n0\r\n" + "Trailer-Name: " + "t" * 30 + "\r\n\r\n",
+    # empty lines between pipelined messages (RFC 9112 2.2: a server SHOULD ignore at least one)
+    "POST /p HTTP/1.1\r\nHost: a\r\nContent-Length: 3\r\n\r\nabc\r\nGET /2 HTTP/1.1\r\nHost: a\r\n\r\n",
+    "GET /1 HTTP/1.1\r\nHost: a\r\n\r\n\r\n\r\nGET /2 HTTP/1.1\r\nHost: a\r\n\r\n",
+    "\r\nPOST /p HTTP/1.1\r\nHost: a\r\nTransfer-Encoding: chunked\r\n\r\n1\r\nx\r\n0\r\n\r\n\r\nGET /2 HTTP/1.1\r\nHost: a\r\n\r\n",
     "GET /\nx HTTP/1.1\r\nHost: a\r\n\r\n",
     "GET /\rx HTTP/1.1\r\nHost: a\r\n\r\n",
     "GET / HTTP/1.1\r\nHost: a\nX: y\r\n\r\n",
